@@ -1,7 +1,8 @@
 #!/usr/bin/env python3
-# usage: seed_prompt.py Cxx  -> creates /tmp/seed-Cxx worktree (if missing) and prints the sub-agent prompt
+# usage: seed_prompt.py Cxx [first-index]  -> creates /tmp/seed-Cxx worktree (if missing) and prints the sub-agent prompt
 import json,sys,subprocess,os
 pid=sys.argv[1]
+k0=int(sys.argv[2]) if len(sys.argv)>2 else 1
 wt=f"/tmp/seed-{pid}"
 if not os.path.exists(wt):
     subprocess.run(["git","-C","/repo","worktree","add","-q","--detach",wt,"HEAD"],check=True)
@@ -20,7 +21,7 @@ Here is a semantic property that the library is supposed to satisfy:
 
 Your task: produce TWO different, independent changes to the library's non-test source code, each of which BREAKS this property while the code still compiles and the whole existing test suite still passes. Each change must be a realistic defect a developer could plausibly introduce (wrong variable or field, missing check on one path, swapped arguments, off-by-one / boundary condition, an error path that forgets cleanup, a condition that is slightly too weak or too strong) and must need something SPECIFIC to manifest: an unusual input, a particular multi-step sequence of operations, a particular interleaving or fault point, or two cooperating sites that each look fine alone. Do not produce changes that ordinary use or the existing tests would expose at once, and do not just delete large pieces of functionality.
 
-For each change k in {{1,2}} deliver, under {wt}/SEED/k/:
+For each change k in {{{k0},{k0+1}}} deliver, under {wt}/SEED/k/:
   - patch.diff : `git diff` of the source change only (must apply to a clean checkout with `git apply`), NOT including the demonstration;
   - a demonstration: a new Go test file (say which package directory it goes in; name it zz_seed_demo_test.go) or small program that FAILS with the change applied and PASSES without it;
   - meta.json : {{"property": "{pid}", "summary": "...what was changed...", "needs_to_manifest": "...the specific input/sequence/interleaving...", "demo_location": "<package dir for the test file>", "commands_run": [...], "observed": "...outputs showing demo fails with and passes without the change, and that the existing suite passes with the change..."}}
